@@ -15,7 +15,11 @@ PLAN = dict(
         steps=[
             step("parallel-moves-generic", "pm", "pm", 3000, 200000),
         ] + _subst("subst-x86", "x86", ["--small", "4", "--stride5", "23", "--window", "3", "--shards", "16"],
-                                         ["--small", "5", "--shards", "16"]),
+                                         ["--small", "5", "--shards", "16"])
+          + _subst("subst-a64", "a64", ["--small", "3", "--stride5", "37", "--window", "4", "--shards", "16"],
+                                         ["--small", "5", "--shards", "16"])
+          + _subst("subst-rv", "rv", ["--small", "4", "--stride5", "13", "--shards", "16"],
+                                       ["--small", "5", "--shards", "16"]),
         rule="(pm) random move graphs with in-degree <= 1 over up to 10 abstract temporaries, observed through a recording backend. "
              "(subst-<backend>) explicit substitutions compiled by the real Substitute::code_statement: EXHAUSTIVELY all maps from m <= 5 new "
              "to n <= 5 old variables x all integer/object kind assignments x every offset of the window across the register/spill boundary "
